@@ -23,8 +23,8 @@ for _p, _t in [
  ("C02", "Shape/provenance postconditions on the domain-level sampling methods (primitives, Boolean operations and their boundaries incl. the n = 1 and grid helpers, products incl. dependent ones, motions) and on the point samplers and their algebra (product, sum, append, data, static length): exactly K'*n rows, grouped by parameter row (row-major structured axis), dim columns, the domain's space, parameter rows carried unchanged."),
  ("C05", "_contains of every primitive: one truth value per row; interior membership <=> the closed set (each point against its own parameter row); boundary membership accepts exact boundary points and rejects beyond the isclose tolerance band."),
  ("C10", "volume() = analytic measure (pi symbolic) per parameter row, positive for both orientations, boundary measures; density sampling returns exactly ceil(density*measure) rows (at most 2*ceil for the rejection-based triangle)."),
- ("C18", "bounding_box(): flat [min,max] per axis, encloses every point of every supplied parameter row (min/max over rows by their defining axioms), tight for one row."),
- ("C06", "normal(): row count, unit length, finiteness (non-zero divisors) and first-order outwardness at every exact boundary point for Interval, Circle, Sphere boundaries and (constant shapes, both orientations, modular: _get_normal_direction under its own contract, ghost un-normalised sum, pure normalisation lemma) ParallelogramBoundary. Triangle normals and the normals of Boolean boundaries are NOT under contract."),
+ ("C18", "bounding_box(): flat [min,max] per axis, encloses every point of every supplied parameter row (min/max over rows by their defining axioms), tight for one row; composition rules for union / intersection / cut / product / rotation over abstract operands; consumer clause: the Latin-hypercube proposals leave no slab of the box without a point on any axis (every box coordinate shares its slab with a proposal)."),
+ ("C06", "normal(): row count, unit length, finiteness (non-zero divisors) and first-order outwardness at every exact boundary point for Interval, Circle, Sphere boundaries and (constant shapes, both vertex orientations, edges and corners; modular: _get_normal_direction under its own contract incl. its closed form, ghost un-normalised sum, strict Cauchy-Schwarz and normalisation as pure lemmas) Parallelogram- and TriangleBoundary; for the boundaries of unions / cuts / intersections over abstract operands: operand selection by boundary membership, sign flip of the cut-out part, unit length. Parameter-dependent polygons are not under contract; that the selected operand normal is outward for the composite is a locality argument (A7), not mechanised."),
 ]:
     CLAIMED[_p] = dict(cat="proof", sec="DESIGN 4/" + _p, text=_t, note=GEO_NOTE, tech="contract-based deductive verification: VCs generated from the AST of the real source by a symbolic interpreter (tpv), discharged by z3 (nlsat on a sound QF_NRA weakening, cvc5 as second back end)")
 
@@ -67,7 +67,7 @@ CLAIMED["C09"] = dict(cat="other", sec="DESIGN 4/C09",
     tech="contract-based deductive verification with abstract trunk/branch operands and symbolic sums, z3")
 
 CLAIMED["C11"] = dict(cat="proof", sec="DESIGN 4/C11, 10.2",
-    text="PARTIAL: only the per-call clauses. Latin hypercube (_create_lhs_in_bounding_box): for every outcome of the random generator, on every axis row r lies in the half-open slab given by the drawn permutation and every slab is hit by exactly one row (bijection from the randperm contract), points stay in the box. Interval.sample_random_uniform is the affine image lo + (hi-lo)*u of the uniform variate (inverse-CDF condition). Uniformity after rejection, the union mixture, dependent products, the Gaussian law and grid evenness are statements about push-forward measures and are NOT decided.",
+    text="PARTIAL: only the per-call clauses. Latin hypercube (_create_lhs_in_bounding_box): for every outcome of the random generator, on every axis row r lies in the half-open slab given by the drawn permutation and every slab is hit by exactly one row (bijection from the randperm contract), points stay in the box. Interval.sample_random_uniform is the affine image lo + (hi-lo)*u of the uniform variate (inverse-CDF condition); the closed-form circle and parallelogram samplers have a constant Jacobian (= the measure); a union mixes row (k, j) with the volume ratio vol_A(p_k)/(vol_A(p_k)+vol_B(p_k)) of its own parameter row (abstract operands). Uniformity after rejection, dependent products, the Gaussian law and grid evenness are statements about push-forward measures and are NOT decided.",
     note="A1, A3 (torch.rand in [0,1), randperm is a permutation), A9. The distribution laws themselves are not applicable to this technique; only necessary per-call conditions are proved.",
     tech="contract-based deductive verification of per-call postconditions (all outcomes of the random generator), z3")
 
